@@ -54,7 +54,8 @@
 From Coq Require Import List NArith ZArith Bool Arith Lia.
 Import ListNotations.
 Require Import Parser SBase SPrim SDir SScalar SFetch Pipe SBuf Drivers BlockScalar BlockScalarProofs BlockScalarCase.
-Require Import FlowText ScalarContext ScalarContextBlock.
+Require Import FlowText ScalarContext ScalarContextBlock ScalarContext2BlockSib.
+Require FlowFold.
 Open Scope N_scope.
 
 (* ---- T1 ---- *)
@@ -685,3 +686,113 @@ Proof. split; [reflexivity|]. exact (run_block_entry ctx_entry eq_refl eq_refl e
 Example C05_document_ends_input_excludes :
   ends_input (mkcase true CClip None (Some O) (L "a: ") [] [R 2 "x"] (EofRest (L "b: 1/"))) = false /\ leading_tab_b witness_tab = true.
 Proof. split; reflexivity. Qed.
+
+(* ---- T7: a FOLLOWER behind the block scalar (Proofs/ScalarContext2Pos.v, ScalarContext2BlockSib.v) ------------------- *)
+(* The scalar is the value of the FIRST pair of a two-pair top-level mapping / the FIRST entry of a two-entry top-level
+   sequence: bc_eof b = EofRest (sibling line), the sibling line being  kw2 ": " w tail  resp.  "- " w tail  with kw2 a
+   one-word plain key (key_ok), w any ONE-LINE plain scalar the specification of C04 allows in block context (sib_wf w =
+   FlowFold.plain_layout_wf false 0 w []: inner blanks, '#' and ':' inside words, ...) and tail spaces and line feeds (tail_ok: line
+   feeds only when the case is written with LF breaks, because case_text renders every LF of the rest in the break style of
+   the case).  For EVERY such case with case_ok outside the leading-tab class whose text holds no NUL (no YAML stream does; the
+   position theorem of C12 that locates the scanner behind the scalar is stated for NUL-free inputs) -- both styles, the
+   three chompings, explicit / auto-detected indentation, header comment, all line lists, LF / CR LF / CR -- the whole model
+   pipeline on the specification's rendering yields the scalar event with the specified value and style, FOLLOWED BY the
+   sibling's events.  What is new against T6: behind the scalar the scanner stands at column 0 of a later line (from the
+   position invariant MarkOK of Proofs/ScanPos.v, established at the indicator by the skeleton lemmas restated with explicit
+   positions), so the simple key saved for the scalar is stale and the token is handed out; the indentation stack left by
+   scan_block_scalar (unchanged, or without the one-column raise of "key:") fetches like r3c03's at_tok state; the sibling
+   line is then scanned by r3c03's key_at_tok / dash_sp and C04's plain scalar at the end of the input. *)
+Theorem C05_document_value_sibling : forall b kw kw2 w tail,
+  case_ok b = true -> leading_tab_b b = false -> bc_parent b = Some O -> key_ok kw = true -> bc_prefix b = kw ++ [58; 32] ->
+  bc_eof b = EofRest (kw2 ++ 58 :: 32 :: w ++ tail) -> key_ok kw2 = true -> FlowFold.plain_layout_wf false 0 w [] = true ->
+  tail_ok (bc_brk b) tail = true -> forallb (fun c => negb (c =? 0)) (case_text b) = true ->
+  map fst (fst (run_str (case_text b)))
+  = [EStreamStart; EDocumentStart false; EMappingStart 0 None; EScalar kw Plain 0 None;
+     EScalar (case_value b) (if bc_literal b then Literal else Folded) 0 None;
+     EScalar kw2 Plain 0 None; EScalar w Plain 0 None; EMappingEnd; EDocumentEnd; EStreamEnd]
+  /\ snd (run_str (case_text b)) = PDone.
+Proof. exact run_block_value_sib. Qed.
+Print Assumptions C05_document_value_sibling.
+
+Theorem C05_document_entry_sibling : forall b w tail,
+  case_ok b = true -> leading_tab_b b = false -> bc_parent b = Some O -> bc_prefix b = [45; 32] ->
+  bc_eof b = EofRest (45 :: 32 :: w ++ tail) -> FlowFold.plain_layout_wf false 0 w [] = true ->
+  tail_ok (bc_brk b) tail = true -> forallb (fun c => negb (c =? 0)) (case_text b) = true ->
+  map fst (fst (run_str (case_text b)))
+  = [EStreamStart; EDocumentStart false; ESequenceStart 0 None;
+     EScalar (case_value b) (if bc_literal b then Literal else Folded) 0 None; EScalar w Plain 0 None;
+     ESequenceEnd; EDocumentEnd; EStreamEnd]
+  /\ snd (run_str (case_text b)) = PDone.
+Proof. exact run_block_entry_sib. Qed.
+Print Assumptions C05_document_entry_sibling.
+
+(* the token level *)
+Theorem C05_document_sibling_tokens : forall b w tail,
+  case_ok b = true -> leading_tab_b b = false -> bc_parent b = Some O -> FlowFold.plain_layout_wf false 0 w [] = true ->
+  tail_ok (bc_brk b) tail = true -> forallb (fun c => negb (c =? 0)) (case_text b) = true ->
+  (forall kw kw2, key_ok kw = true -> bc_prefix b = kw ++ [58; 32] -> bc_eof b = EofRest (kw2 ++ 58 :: 32 :: w ++ tail) -> key_ok kw2 = true ->
+   exists toks, scan_str (case_text b) = (toks, SEnded) /\
+     map snd toks = [TStreamStart; TBlockMappingStart; TKey; TScalar Plain kw; TValue;
+                     TScalar (if bc_literal b then Literal else Folded) (case_value b);
+                     TKey; TScalar Plain kw2; TValue; TScalar Plain w; TBlockEnd; TStreamEnd]) /\
+  (bc_prefix b = [45; 32] -> bc_eof b = EofRest (45 :: 32 :: w ++ tail) ->
+   exists toks, scan_str (case_text b) = (toks, SEnded) /\
+     map snd toks = [TStreamStart; TBlockSequenceStart; TBlockEntry;
+                     TScalar (if bc_literal b then Literal else Folded) (case_value b); TBlockEntry; TScalar Plain w; TBlockEnd; TStreamEnd]).
+Proof.
+  exact (fun b w tail Hok Htab Hp Hw Ht Hn =>
+    conj (fun kw kw2 Hk Hpre He Hk2 => scan_block_value_sib b kw kw2 w tail Hok Htab Hp Hk Hpre He Hk2 Hw Ht Hn)
+         (fun Hpre He => scan_block_entry_sib b w tail Hok Htab Hp Hpre He Hw Ht Hn)).
+Qed.
+Print Assumptions C05_document_sibling_tokens.
+
+(* instances, every hypothesis evaluated.  "key: |\n  x\n  y\nk2: w\n" *)
+Definition sib_value : bcase := mkcase true CClip None (Some O) (L "key: ") [] [R 2 "x"; R 2 "y"] (EofRest (L "k2: w/")).
+Example C05_document_value_sibling_instance :
+  case_text sib_value = L "key: |/  x/  y/k2: w/" /\
+  map fst (fst (run_str (L "key: |/  x/  y/k2: w/")))
+  = [EStreamStart; EDocumentStart false; EMappingStart 0 None; EScalar (L "key") Plain 0 None; EScalar (L "x/y/") Literal 0 None;
+     EScalar (L "k2") Plain 0 None; EScalar (L "w") Plain 0 None; EMappingEnd; EDocumentEnd; EStreamEnd]
+  /\ snd (run_str (L "key: |/  x/  y/k2: w/")) = PDone.
+Proof.
+  split; [reflexivity|].
+  exact (run_block_value_sib sib_value (L "key") (L "k2") (L "w") (L "/") eq_refl eq_refl eq_refl eq_refl eq_refl eq_refl eq_refl eq_refl eq_refl eq_refl).
+Qed.
+(* folded, keep, explicit indentation, a header comment, CR LF breaks, a more-indented line, trailing empty lines that belong to
+   the scalar; the sibling's value has inner blanks and a '#' inside a word, a blank behind it, no final line break *)
+Definition sib_value2 : bcase :=
+  {| bc_literal := false; bc_chomp := CKeep; bc_explicit := Some 1%nat; bc_digit_first := true; bc_parent := Some O;
+     bc_prefix := L "key: "; bc_hc := L " # c"; bc_raw := [R 1 "x"; R 1 "y"; R 0 ""; R 3 "z"; R 1 ""]; bc_eof := EofRest (L "k2: a b#c ");
+     bc_brk := 1 |}.
+Example C05_document_value_sibling_instance_crlf :
+  case_text sib_value2 = with_breaks 1 (L "key: >1+ # c/ x/ y//   z/ /k2: a b#c ") /\
+  map fst (fst (run_str (with_breaks 1 (L "key: >1+ # c/ x/ y//   z/ /k2: a b#c "))))
+  = [EStreamStart; EDocumentStart false; EMappingStart 0 None; EScalar (L "key") Plain 0 None; EScalar (L "x y//  z//") Folded 0 None;
+     EScalar (L "k2") Plain 0 None; EScalar (L "a b#c") Plain 0 None; EMappingEnd; EDocumentEnd; EStreamEnd].
+Proof.
+  split; [reflexivity|].
+  exact (proj1 (run_block_value_sib sib_value2 (L "key") (L "k2") (L "a b#c") (L " ") eq_refl eq_refl eq_refl eq_refl eq_refl eq_refl eq_refl eq_refl eq_refl eq_refl)).
+Qed.
+(* sequence: literal, strip, auto-detected indentation 3 behind a leading empty line, a YAML look-alike line, a trailing empty
+   line; the sibling entry starts with '-' in front of a letter and is followed by two line feeds *)
+Definition sib_entry : bcase :=
+  {| bc_literal := true; bc_chomp := CStrip; bc_explicit := None; bc_digit_first := false; bc_parent := Some O;
+     bc_prefix := L "- "; bc_hc := []; bc_raw := [R 0 ""; R 3 "x"; R 5 "- y: z"; R 0 ""]; bc_eof := EofRest (L "- -w w//");
+     bc_brk := 0 |}.
+Example C05_document_entry_sibling_instance :
+  case_text sib_entry = L "- |-//   x/     - y: z//- -w w//" /\
+  map fst (fst (run_str (L "- |-//   x/     - y: z//- -w w//")))
+  = [EStreamStart; EDocumentStart false; ESequenceStart 0 None; EScalar (L "/x/  - y: z") Literal 0 None; EScalar (L "-w w") Plain 0 None;
+     ESequenceEnd; EDocumentEnd; EStreamEnd]
+  /\ snd (run_str (L "- |-//   x/     - y: z//- -w w//")) = PDone.
+Proof.
+  split; [reflexivity|].
+  exact (run_block_entry_sib sib_entry (L "-w w") (L "//") eq_refl eq_refl eq_refl eq_refl eq_refl eq_refl eq_refl eq_refl).
+Qed.
+(* the side conditions are real restrictions: a line feed in the tail of a CR LF case, " #" (a comment) and ": " in the sibling's
+   value, a NUL in the text *)
+Example C05_document_sibling_excludes :
+  tail_ok 1 (L "/") = false /\ tail_ok 0 (L " //") = true /\ tail_ok 2 (L "  ") = true /\
+  FlowFold.plain_layout_wf false 0 (L "a #b") [] = false /\ FlowFold.plain_layout_wf false 0 (L "a: b") [] = false /\
+  forallb (fun c => negb (c =? 0)) [107; 58; 32; 124; 10; 32; 0; 10] = false.
+Proof. repeat split. Qed.
